@@ -546,6 +546,109 @@ fn parse_ver(s: &str) -> Version {
     }
 }
 
+
+/// Label families: base labels of many lengths (below, at and above every
+/// plausible block / prefix size) and, for each, labels that differ from it in
+/// one byte at the front, in the middle, around byte 32, at the end, or in
+/// length. A proof made under the base label must be rejected by a verifier
+/// compiled (later, in the same process) under any sibling label, and the
+/// sibling's own honest proof must be accepted by it and rejected by the base
+/// verifier.
+fn label_families(run: &mut Run, tier: Tier) {
+    let pp = crate::setup::pp(64);
+    let prog = Prog::new(|c| {
+        let a = c.append_witness(fe(6));
+        let b = c.append_witness(fe(7));
+        let o = c.gate_mul(Constraint::new().mult(1).a(a).b(b));
+        let p = c.append_public(fe(42));
+        c.assert_equal(o, p);
+        Ok(())
+    });
+    let lens: Vec<usize> = tier.pick(vec![1, 8, 32, 33, 40, 64, 100], vec![1, 2, 7, 8, 9, 16, 31, 32, 33, 34, 40, 63, 64, 65, 100, 255, 256, 300]);
+    let prove = |p: &Prover, stream: u64| -> Option<(Proof, Vec<Fe>)> {
+        let mut rng = crate::rng::ScriptedRng::base(seed(), stream);
+        p.prove(&mut rng, &prog).ok()
+    };
+    for len in lens {
+        let base: Vec<u8> = (0..len).map(|i| b"dusk-network/plonk/circuit/label-family/"[i % 40] ^ ((i / 40) as u8)).collect();
+        let Ok((pa, va)) = Compiler::compile_with_circuit(&pp, &base, &prog) else {
+            run.machinery(format!("label family {}: base compile failed", len));
+            continue;
+        };
+        let Some((proof_a, pis_a)) = prove(&pa, 70) else {
+            run.machinery(format!("label family {}: base proof failed", len));
+            continue;
+        };
+        run.transitions += 1;
+        if va.verify(&proof_a, &pis_a).is_err() {
+            run.violation("label-family/base-rejected", &format!("honest proof under a {}-byte label rejected by its own verifier", len), json!({"name": "label-family", "len": len}));
+            continue;
+        }
+        let mut siblings: Vec<(String, Vec<u8>)> = vec![];
+        let mut positions: Vec<usize> = vec![0, len / 2, len.saturating_sub(1)];
+        for p in [7usize, 8, 15, 16, 31, 32, 33, 63, 64] {
+            if p < len {
+                positions.push(p);
+            }
+        }
+        positions.sort();
+        positions.dedup();
+        for p in positions {
+            let mut l = base.clone();
+            l[p] ^= 0x01;
+            siblings.push((format!("byte{}^1", p), l.clone()));
+            let mut l2 = base.clone();
+            l2[p] ^= 0x80;
+            siblings.push((format!("byte{}^80", p), l2));
+        }
+        let mut l = base.clone();
+        l.push(0);
+        siblings.push(("append-nul".into(), l));
+        let mut l = base.clone();
+        l.push(base[len - 1]);
+        siblings.push(("append-dup".into(), l));
+        if len > 1 {
+            siblings.push(("drop-last".into(), base[..len - 1].to_vec()));
+            siblings.push(("drop-first".into(), base[1..].to_vec()));
+            let mut l = base.clone();
+            l.swap(0, len - 1);
+            if l != base {
+                siblings.push(("swap-ends".into(), l));
+            }
+        }
+        for (nm, lab) in siblings {
+            run.transitions += 2;
+            run.evaluations += 1;
+            run.traces_validated += 2;
+            run.nontrivial(fnv(&lab) ^ len as u64);
+            let case = json!({"name": "label-family", "base_len": len, "sibling": nm, "base_hex": to_hex(&base), "sibling_hex": to_hex(&lab)});
+            let Ok((pb, vb)) = Compiler::compile_with_circuit(&pp, &lab, &prog) else {
+                run.violation("label-family/sibling-compile-failed", &format!("{}-byte base, sibling {}", len, nm), case);
+                continue;
+            };
+            let class = if len <= 32 { "len<=32" } else { "len>32" };
+            if vb.verify(&proof_a, &pis_a).is_ok() {
+                run.violation(&format!("label-family/{}/foreign-proof-accepted", class), &format!("a proof made under a {}-byte label is accepted by a verifier compiled under the sibling label ({})", len, nm), case.clone());
+            } else {
+                run.outcome("label-family:foreign-proof-rejected");
+            }
+            match prove(&pb, 71) {
+                None => run.violation(&format!("label-family/{}/sibling-proof-failed", class), &format!("{} {}", len, nm), case),
+                Some((proof_b, pis_b)) => {
+                    if vb.verify(&proof_b, &pis_b).is_err() {
+                        run.violation(&format!("label-family/{}/own-proof-rejected", class), &format!("sibling {} of the {}-byte label rejects its own honest proof", nm, len), case);
+                    } else if va.verify(&proof_b, &pis_b).is_ok() {
+                        run.violation(&format!("label-family/{}/foreign-proof-accepted", class), &format!("the base verifier ({}-byte label) accepts a proof made under the sibling label ({})", len, nm), case);
+                    } else {
+                        run.outcome("label-family:sibling-consistent");
+                    }
+                }
+            }
+        }
+    }
+    run.gate("label families explored", run.count("label-family:foreign-proof-rejected") > 50);
+}
+
 pub fn main(tier: Tier, replay: Option<Value>) -> i32 {
     let mut run = Run::new("C04", tier, "model_checking");
     run.rule = "cases = (verifier, version, proof, public-input vector): for each circuit an honest proof per version (V2, V3 by the real prover, V1 derived) is presented (1) to its own verifier with every public-input position x every F_s value, every permutation, truncations / extensions; (2) to every near-miss verifier compiled from the circuit's row description with exactly one change (each user row x 11 selectors +1, each wire re-pointed to another witness / to another witness of equal value, a public-input row added / removed / moved, a row appended / dropped) with the original and the variant's own vector; (3) to verifiers compiled under every single-bit flip and length edit of the 8-byte label; (4) under every ordered (proof version, verify version) pair, decided by M2. Expected accept iff Verifier::to_bytes() is byte-identical, the vector is identical, and (version pairs) M2 accepts; non-trivial = distinct (verifier bytes, version, proof, vector) executed on the real verifier".into();
@@ -726,5 +829,6 @@ pub fn main(tier: Tier, replay: Option<Value>) -> i32 {
         "V1 proofs are derived by the harness from V2 proofs (the crate refuses to prove under V1)".into(),
         "alternative public-input values come from the 12-element alphabet F_s, not the whole field".into(),
     ];
+    label_families(&mut run, tier);
     run.finish()
 }
